@@ -141,6 +141,7 @@ def main(argv=None):
     prop_id = args.property.upper()
     seed = int(os.environ.get("VERIF_SEED", "0") or 0)
     t0 = time.time()
+    common.begin_run_scratch()
     try:
         mod = module_for(prop_id)
         if args.replay:
